@@ -59,21 +59,63 @@ def nontrivial_history(recs):
     return live2 and excl and rel and other
 
 
-def ta_correspondence(chk, traces, shards=16):
+def configs_along(script, recs):
+    """the policy configuration in force after each record of a trace"""
+    cfg, out, changed = script['config'], [], False
+    for rec in recs:
+        ev = script['events'][rec['seq']] if rec['seq'] >= 0 else {}
+        if ev.get('op') == 'Reconfigure' and rec['reply']['class'] == 'ok':
+            cfg = ev['config']
+            changed = changed or ev.get('tag') == 'new'
+        if ev.get('op') == 'Restart' and ev.get('config'):
+            cfg = ev['config']
+        out.append((cfg, changed))
+    return out
+
+
+def ta_correspondence(chk, traces, shards=16, scripts=None, guards=False):
     """Evaluate TA_Model.check_segments on every trace inside Coq. Returns stats."""
     names = sorted(traces)
+    cfgs = None
+    if scripts:
+        byname = {s['name']: s for s in scripts}
+        cfgs = {n: [c for c, _ in configs_along(byname[n], traces[n])] for n in names if n in byname}
     per = max(1, (len(names) + shards - 1) // shards)
     files, groups = [], []
     stats = collections.Counter()
     for k in range(0, len(names), per):
         grp = names[k:k + per]
         p = os.path.join(chk.work, 'cases_ta_%02d.v' % (k // per))
-        st = ta_corr.case_file(p, [(n, traces[n]) for n in grp])
+        st = ta_corr.case_file(p, [(n, traces[n]) for n in grp], cfgs, guards)
         for s in st.values():
             stats.update(s)
         files.append(p)
         groups.append(grp)
-    results = coq_eval_many(files, timeout=600)
+    # the eligibility decision table on every (inputs, output) pair seen
+    pcases, seen = [], set()
+    for n in names:
+        cs, sn = ta_corr.prefs_cases(traces[n])
+        for c, k in zip(cs, sn):
+            pass
+        for c in cs:
+            if c not in seen:
+                seen.add(c)
+                pcases.append(c)
+    pfile = os.path.join(chk.work, 'cases_prefs.v')
+    with open(pfile, 'w') as f:
+        f.write(ta_corr.HDR)
+        f.write('Definition cs : list (prefin * creq) := [%s].\n' % ';\n'.join(pcases))
+        f.write('Definition M := Eval vm_compute in prefs_mismatches 0 cs.\nPrint M.\n')
+    stats['prefs_cases'] = len(pcases)
+    guard_fail = {}
+    results = coq_eval_many(files + [pfile], timeout=600)
+    rc, out = results.pop()
+    body = parse_coq_print(out, 'M')
+    if rc != 0 or body is None:
+        chk.corr_broken('TA_Model.cpu_prefs', 'coqc failed:\n' + out[-1500:])
+    elif body.strip() != '[]':
+        idxs = [int(x) for x in re.findall(r'\d+', body)]
+        chk.corr_broken('TA_Model.cpu_prefs', 'eligibility table differs from cpuAllocationPreferences on cases %s, e.g. %s' % (idxs[:5], pcases[idxs[0]] if idxs else ''))
     bad = []
     for grp, p, (rc, out) in zip(groups, files, results):
         body = parse_coq_print(out, 'M')
@@ -87,10 +129,19 @@ def ta_correspondence(chk, traces, shards=16):
         for n, it in zip(grp, items):
             if it.strip() != 'None':
                 bad.append((n, ' '.join(it.split())))
+        if guards:
+            gbody = parse_coq_print(out, 'GG')
+            gitems = split_top(gbody.strip()[1:-1]) if gbody else []
+            for n, it in zip(grp, gitems):
+                pairs = re.findall(r'\((\d+),\s*(\d+)\)', it)
+                guard_fail[n] = [(int(a), int(b)) for a, b in pairs]
     for n, it in bad:
         chk.corr_broken('TA_Model:' + n, 'model and implementation differ on history %s: %s (segment, MStep/MPool/MGrant event-group index ...)' % (n, it))
     stats['traces'] = len(names)
     stats['mismatching_traces'] = len(bad)
+    if guards:
+        stats['traces_with_guard_failure'] = sum(1 for v in guard_fail.values() if v)
+        return stats, bad, guard_fail
     return stats, bad
 
 
